@@ -179,6 +179,7 @@ PROPS = {
             dict(name="TestRawGraph", quick=4000, thorough=400000, shards_thorough=10),
             dict(name="TestTypedChain", quick=3000, thorough=300000, shards_thorough=6),
             dict(name="TestConcurrentReplays", quick=3000, thorough=200000, shards_thorough=8, shrinktime="5s"),
+            dict(name="TestClearDuringChain", quick=800, thorough=40000, shards_thorough=8, shrinktime="5s"),
             dict(name="FuzzGraph", quick=0, thorough=120, shards_thorough=1, fuzz=True, rapid=False, fuzz_workers=8),
         ],
     ),
